@@ -67,9 +67,11 @@ _DEPTH = pick(2, 3)
 _L = pick(2, 3)  # symbolic str length bound
 BOUNDS = (
     "dataclass shapes generated from {int,bool,str,Enum(value!=name),Optional,list,frozenset,dict[str,.],"
-    "nested dataclass,defaults,Transient} to nesting depth %d (quick: fixed selection of 25; thorough: all); "
+    "nested dataclass,defaults,Transient} to nesting depth %d (quick: fixed selection of 25; thorough: all, %s); "
     "instances: unbounded ints, any bool, any str of len<=%d, any enum member (3), container lengths 0..2, "
-    "None in every Optional position" % (_DEPTH, _L)
+    "None in every Optional position; map keys: a top-level map of scalars/enums has two independent symbolic "
+    "keys, any other two-entry map has keys (s, s+'k') with s symbolic; depth-3 shapes: the outermost container "
+    "holds at most one element" % (_DEPTH, "incl. Enum-keyed maps", _L)
 )
 OUTSIDE = (
     "Arrow's own value fidelity (int64 range, IPC framing) — only the Python conversion layer is symbolic; "
@@ -296,7 +298,16 @@ class _Pool:
         return self.vals[kind][c]
 
 
-def _need(e: tuple, acc: dict) -> None:
+_SCALARISH = ("int", "bool", "str", "enum")
+
+
+def _free_keys(e: tuple, level: int) -> bool:
+    """Two independent symbolic keys (top-level map of scalars / non-str keys); otherwise the second
+    key of a two-entry map is ``first + "k"`` (symbolic content, distinct by construction)."""
+    return e[1] != ("str",) or (level == 0 and e[2][0] in _SCALARISH)
+
+
+def _need(e: tuple, acc: dict, level: int = 0) -> None:
     """Maximum number of symbolic primitives of each kind an expression can consume."""
     k = e[0]
     if k == "int":
@@ -309,22 +320,27 @@ def _need(e: tuple, acc: dict) -> None:
         acc["e"] += 1
     elif k == "opt":
         acc["z"] += 1
-        _need(e[1], acc)
+        _need(e[1], acc, level)
     elif k in ("list", "fset"):
         acc["n"] += 1
-        _need(e[1], acc)
-        _need(e[1], acc)
+        _need(e[1], acc, level + 1)
+        _need(e[1], acc, level + 1)
     elif k == "dict":
         acc["n"] += 1
-        for _ in range(2):
+        _need(e[1], acc)
+        if _free_keys(e, level):
             _need(e[1], acc)
-            _need(e[2], acc)
+        _need(e[2], acc, level + 1)
+        _need(e[2], acc, level + 1)
     elif k == "dc":
         for f in _DC[e[1]]["fields"]:
-            _need(f[1], acc)
+            _need(f[1], acc, level + 1)
 
 
-def _build(e: tuple, p: _Pool) -> Any:
+def _build(e: tuple, p: _Pool, level: int = -1, deep: bool = False) -> Any:
+    """Instance of ``e`` from the pool.  ``level`` = number of enclosing containers/dataclasses below the
+    shape's wrapper dataclass (wrapper itself is -1).  ``deep`` (depth-3 shapes): the outermost container
+    holds at most one element so that the path count stays that of a depth-2 shape."""
     k = e[0]
     if k == "int":
         return p.take("i")
@@ -342,28 +358,31 @@ def _build(e: tuple, p: _Pool) -> Any:
     if k == "opt":
         if p.take("z"):
             return None
-        return _build(e[1], p)
+        return _build(e[1], p, level, deep)
+    one_only = deep and level == 0
     if k in ("list", "fset"):
         n = p.take("n")
         if n == 0:
             items: list = []
-        elif n == 1:
-            items = [_build(e[1], p)]
+        elif n == 1 or one_only:
+            items = [_build(e[1], p, level + 1, deep)]
         else:
-            items = [_build(e[1], p), _build(e[1], p)]
+            items = [_build(e[1], p, level + 1, deep), _build(e[1], p, level + 1, deep)]
         return items if k == "list" else frozenset(items)
     if k == "dict":
         n = p.take("n")
         if n == 0:
-            pairs: list = []
-        elif n == 1:
-            pairs = [(_build(e[1], p), _build(e[2], p))]
-        else:
-            pairs = [(_build(e[1], p), _build(e[2], p)), (_build(e[1], p), _build(e[2], p))]
-        return dict(pairs)
+            return dict([])
+        k0 = _build(e[1], p, level + 1, deep)
+        v0 = _build(e[2], p, level + 1, deep)
+        if n == 1 or one_only:
+            return dict([(k0, v0)])
+        k1 = _build(e[1], p, level + 1, deep) if _free_keys(e, level) else k0 + "k"
+        v1 = _build(e[2], p, level + 1, deep)
+        return dict([(k0, v0), (k1, v1)])
     if k == "dc":
         info = _DC[e[1]]
-        vals = [_build(f[1], p) for f in info["fields"]]
+        vals = [_build(f[1], p, level + 1, deep) for f in info["fields"]]
         return info["cls"](*vals)
     raise ValueError(e)
 
@@ -520,7 +539,7 @@ _BY_NAME = {s["name"]: s for s in SHAPES}
 
 def _needs(s: dict) -> dict:
     acc = {"n": 0, "i": 0, "b": 0, "s": 0, "e": 0, "z": 0}
-    _need(s["expr"], acc)
+    _need(s["expr"], acc, -1)
     return acc
 
 
@@ -532,7 +551,7 @@ def _needs(s: dict) -> dict:
 def check(name: str, n: tuple, i: tuple, b: tuple, s: tuple, e: tuple, z: tuple) -> bool:
     shape = _BY_NAME[name]
     expr = shape["expr"]
-    v = _build(expr, _Pool(n, i, b, s, e, z))
+    v = _build(expr, _Pool(n, i, b, s, e, z), -1, shape["depth"] >= 3)
     row = _ser(v)  # real _to_row_dict + Arrow contract (HarnessModelError escapes: not a verdict on the repo)
     try:
         got = _deser(type(v), row)
@@ -553,7 +572,7 @@ def replay(name: str, args: dict) -> str | None:
     """Real Arrow round trip of the concrete counterexample (no stubs)."""
     shape = _BY_NAME[name]
     expr = shape["expr"]
-    v = _build(expr, _args_to_pool(args))
+    v = _build(expr, _args_to_pool(args), -1, shape["depth"] >= 3)
     want = _expected(expr, v)
     # the Arrow contract must hold on this very instance, otherwise the harness (not the repo) is suspect
     real_row = U._validate_single_row_batch(v._serialize(), type(v).__name__)
@@ -622,7 +641,7 @@ def _validate_contract() -> None:
     for s in ACTIVE:
         for seed in (0, 1, 2):
             try:
-                v = _build(s["expr"], _concrete_pool(seed))
+                v = _build(s["expr"], _concrete_pool(seed), -1, s["depth"] >= 3)
             except TypeError:
                 continue  # unhashable combination in a concrete set (not generated symbolically either)
             real = U._validate_single_row_batch(v._serialize(), type(v).__name__)
